@@ -6,10 +6,10 @@ open Scrapli Scrapli.Lock
     s = thread granularity (`run`), a = asyncio granularity (`runAsync`); 0|1 = channel_lock off|on
     progs: callers separated by `/`, operations by `;`, transport calls by `,`; a call is `r` or `w<hex>`,
            followed by `!` when it raises; `.` = no operation
-    sched: caller ids as digits, `.` = empty
+    sched: caller ids as digits (run), letters a.. = cancel caller 0.. while it waits for the lock, `.` = empty
   reply: `<wire> <results> <lock> <done>`
     wire: events separated by `,`: `<caller>:<op>:<W|R>[!]:<written hex>:<data hex>`, `.` = empty
-    results: per caller `/`, per finished operation `;`: `<ok|fail>:<concatenated reads hex>`, `.` = none
+    results: per caller `/`, per finished operation `;`: `<op index>=<ok|fail>:<concatenated reads hex>`, `.` = none
     lock: `L-` free | `L<i>`;  done: `D1` every caller finished its program | `D0`
 -/
 
@@ -24,8 +24,11 @@ def parseOp (t : String) : Option Op := (t.splitOn ",").mapM parseStep
 
 def parseProg (t : String) : Option Prog := if t == "." then some [] else (t.splitOn ";").mapM parseOp
 
-def parseSched (t : String) : Option (List Nat) :=
-  if t == "." then some [] else t.toList.mapM (fun c => if c.isDigit then some (c.toNat - 48) else none)
+/-- digits = run that caller; letters a, b, c, d = cancel caller 0, 1, 2, 3 if it is waiting for the lock -/
+def parseSched (t : String) : Option (List SEv) :=
+  if t == "." then some [] else t.toList.mapM (fun c =>
+    if c.isDigit then some (.run (c.toNat - 48))
+    else if 'a' ≤ c ∧ c ≤ 'j' then some (.cancel (c.toNat - 97)) else none)
 
 def showEv (e : Ev) : String :=
   let k := match e.act with | .write _ => "W" | .read => "R"
@@ -36,7 +39,7 @@ def showResults (n : Nat) (fin : List ((Nat × Nat) × Outcome)) : String :=
   "/".intercalate ((List.range n).map fun i =>
     let mine := fin.filter (fun e => e.1.1 == i)
     if mine.isEmpty then "." else
-      ";".intercalate (mine.map fun e => s!"{if e.2.ok then "ok" else "fail"}:{Hex.encode e.2.reads.flatten}"))
+      ";".intercalate (mine.map fun e => s!"{e.1.2}={if e.2.ok then "ok" else "fail"}:{Hex.encode e.2.reads.flatten}"))
 
 def allDone (progs : List Prog) (s : St Bytes) : Bool :=
   (List.range s.callers.length).all fun i =>
@@ -51,7 +54,7 @@ def handleLine (line : String) : String :=
     | some p, some ps, some sc =>
       let locking := lock == "1"
       let D := cliDev p
-      let s := if mode == "a" then runAsync locking D ps sc else run locking D ps sc
+      let s := if mode == "a" then runEAsync false locking D ps sc else runE false locking D ps sc
       let wire := if s.world.wire.isEmpty then "." else ",".intercalate (s.world.wire.map showEv)
       let lk := match s.lock with | none => "L-" | some i => s!"L{i}"
       s!"{wire} {showResults ps.length s.finished} {lk} {if allDone ps s then "D1" else "D0"}"
